@@ -121,34 +121,34 @@ def _translator_of(arm_body):
 
 
 def r2(ctx):
-    cf = sem.Conforms(ctx)
-    t, m = cf.op_table("String")
-    if t is None:
-        ctx.violation("anchor/string-arm", sem.CONFORMS, "String comparison arm not found")
-        raise Abort()
-    shapes = {}
-    sites = 0
-    for op, body in t.items():
-        if op == "_":
+    """the regex cache: conforms is evaluated (rules/conf.py) for `=` with a wildcard, `like` and `=~` on the same literal
+    text with an empty cache; the key each compiled regex is stored under must tell the translators apart"""
+    import conf
+    import interp
+    run = conf.Run(ctx)
+    keys = {}
+    n = 0
+    for op, glob in (("Eq", True), ("Like", False), ("Rx", False), ("Ne", True), ("NotLike", False), ("NotRx", False)):
+        try:
+            got, tr = run.run(op, conf.variant("abc"), conf.variant("a*"), matched=True, is_glob=glob)
+        except interp.Undecided as e:
+            ctx.violation("regex_cache/unreadable/%s" % op, ctx.where(sem.CONFORMS), "cannot evaluate conforms for %s: %s" % (op, e))
             continue
-        tr = tuple(_translator_of(body)) or ("raw",)
-        for c in walk_exprs(body):
-            if c["k"] == "MCall" and c["m"] in ("insert", "get") and "regex_cache" in render(c["recv"]):
-                key = render(peel(cf.locs.chase(c["args"][0])))
-                # canonical shape: literal prefixes stay, locals keep their names
-                shapes.setdefault(key, set()).add(tr)
-                sites += 1
-    ctx.covered("regex_cache get/insert sites in the text comparison arms", sites, distinct_keys=shapes,
-                sample={k: sorted(map(list, v)) for k, v in shapes.items()})
-    ctx.floor(sites, 12, "regex_cache get/insert sites", sem.CONFORMS)
-    for key, trs in shapes.items():
+        n += 1
+        for k, v in tr["cache_after"].items():
+            pat = v.get("__regex") if isinstance(v, dict) else str(v)
+            kind = "convert_glob_to_pattern" if str(pat).startswith("<convert_glob") else ("convert_like_to_pattern" if str(pat).startswith("<convert_like") else "raw")
+            keys.setdefault(k, set()).add(kind)
+    ctx.covered("regex cache keys of the text operators evaluated on one literal", n, distinct_keys=sorted(map(str, keys)),
+                sample={str(k): sorted(v) for k, v in keys.items()})
+    ctx.floor(n, 6, "text operators evaluated for their cache key", sem.CONFORMS)
+    for key, trs in keys.items():
         ok = len(trs) <= 1
         ctx.obligation(ok)
         if not ok:
-            ctx.violation("regex_cache/shared-key/%s/%s" % (key, "+".join(sorted(x[0] for x in trs))), ctx.where(sem.CONFORMS, m),
-                          "the regex cache is keyed by `%s` for patterns compiled by different translators %s: the same "
-                          "text used with `=`, `like` and `=~` in one query reuses the first compiled regex" %
-                          (key, sorted(map(list, trs))))
+            ctx.violation("regex_cache/shared-key/literal-text/%s" % "+".join(sorted(trs)), ctx.where(sem.CONFORMS),
+                          "the regex cache is keyed by the literal's text (`%s`) for patterns compiled by different translators %s: the same "
+                          "text used with `=`, `like` and `=~` in one query reuses the first compiled regex" % (key, sorted(trs)))
 
 
 def _results(n, out, neg=False, inl=False):
@@ -210,111 +210,130 @@ def _neg_of(pos, neg, hir=None, ops=None):
 
 
 def r3(ctx):
-    cf = sem.Conforms(ctx)
-    t, m = cf.op_table("String")
+    """each negative text operator is the complement of its positive twin: conforms evaluated (rules/conf.py) on every
+    scenario of (regex verdict, literal has a wildcard, cache hit or miss, pattern compiles)"""
+    import conf
+    import interp
+    run = conf.Run(ctx)
     n = 0
     for pos, neg in (("Eq", "Ne"), ("Rx", "NotRx"), ("Like", "NotLike"), ("Eeq", "Ene")):
-        if pos not in t or neg not in t:
-            ctx.violation("complement/%s-missing" % neg, ctx.where(sem.CONFORMS, m), "no text arm for %s/%s" % (pos, neg))
-            continue
-        a, b = [], []
-        _results(t[pos], a)
-        _results(t[neg], b)
-        chir = ctx.anchor_hir(sem.CONFORMS)
-        ok = len(a) == len(b) and all(_neg_of(x, y, chir, (pos, neg)) for x, y in zip(a, b)) and \
-            _translator_of(t[pos]) == _translator_of(t[neg])
-        n += len(a)
-        ctx.obligation(ok)
-        if not ok:
-            bad = [(render(x), render(y)) for x, y in zip(a, b) if not _neg_of(x, y, chir, (pos, neg))]
-            ctx.violation("complement/%s" % neg, ctx.where(sem.CONFORMS, t[neg]),
-                          "the %s arm is not the negation of the %s arm result by result (%d vs %d results; mismatching: %s)"
-                          % (neg, pos, len(b), len(a), bad[:2]))
-    # a text arm may only yield regex.is_match(..), its negation, an (in)equality of the two texts, or diverge
-    for op, body in t.items():
-        if op == "_":
-            continue
-        rs = []
-        _results(body, rs)
-        for r_ in rs:
-            rr = render(r_)
-            okr = "is_match(" in rr or ".eq(" in rr or ".ne(" in rr or "error_exit" in rr or (r_["k"] == "Bin" and r_["op"] in ("==", "!="))
-            ctx.obligation(okr)
-            if not okr:
-                ctx.violation("result-shape/%s/%s" % (op, rr[:30]), ctx.where(sem.CONFORMS, r_),
-                              "the text comparison %s yields `%s` on some path instead of the regex match / text equality" % (op, rr[:60]))
-    ctx.covered("result expressions of the positive/negative text arms compared pairwise", n,
-                distinct_keys=["Ne", "NotRx", "NotLike", "Ene"])
-    ctx.floor(n, 8, "result expressions in positive text arms", sem.CONFORMS)
+        bad = None
+        for matched in (False, True):
+            for glob in (False, True):
+                for hit in (False, True):
+                    for compiles in (True, False):
+                        for ltxt in ("abc", "a*"):
+                            cached = {"a*": {"__regex": "<cached>"}} if hit else None
+                            try:
+                                a, _ = run.run(pos, conf.variant(ltxt), conf.variant("a*"), matched=matched, is_glob=glob, cached=cached, regex_ok=compiles)
+                                b, _ = run.run(neg, conf.variant(ltxt), conf.variant("a*"), matched=matched, is_glob=glob, cached=cached, regex_ok=compiles)
+                            except interp.Undecided as e:
+                                bad = "cannot evaluate conforms: %s" % e
+                                break
+                            n += 1
+                            okp = (a == "exit" and b == "exit") or (isinstance(a, bool) and isinstance(b, bool) and a != b)
+                            if not okp and bad is None:
+                                bad = "with regex verdict %s, wildcard %s, cache %s, pattern %s, column text `%s`: %s gives %s and %s gives %s" % (
+                                    matched, glob, "hit" if hit else "miss", "valid" if compiles else "invalid", ltxt, pos, a, neg, b)
+                        if bad:
+                            break
+                    if bad:
+                        break
+                if bad:
+                    break
+            if bad:
+                break
+        ctx.obligation(bad is None)
+        if bad:
+            ctx.violation("complement/%s" % neg, ctx.where(sem.CONFORMS), "%s is not the negation of %s: %s" % (neg, pos, bad))
+    ctx.covered("positive / negative text operators evaluated pairwise on 32 scenarios each", n, distinct_keys=["Ne", "NotRx", "NotLike", "Ene"], exhaustive=True)
+    ctx.floor(n, 8, "scenario evaluations of the text operators", sem.CONFORMS)
 
 
 def r4(ctx):
-    cf = sem.Conforms(ctx)
-    t, m = cf.op_table("String")
-    # exact operators use no translator / regex
-    for op in ("Eeq", "Ene"):
-        body = t.get(op)
-        bad = [render(c)[:40] for c in walk_exprs(body) if c["k"] in ("Call", "MCall") and
-               any(s in str(c.get("callee")) for s in ("convert_", "Regex::new", "is_glob", "is_match"))] if body else ["missing"]
-        ctx.obligation(not bad)
-        if bad:
-            ctx.violation("exact/%s" % op, ctx.where(sem.CONFORMS, body or m), "%s must compare the literal text; it uses %s" % (op, bad))
-    # = / != take the glob path exactly when is_glob(val)
-    for op in ("Eq", "Ne"):
-        body = t.get(op)
-        ifs = find_ifs(body, lambda c: is_call_to(c, IS_GLOB)) if body else []
-        ok = False
-        if ifs:
-            _, glob_side, lit_side = ifs[0]
-            ok = glob_side is not None and lit_side is not None and _translator_of(glob_side) == ["convert_glob_to_pattern"] \
-                and not _translator_of(lit_side) and not any("is_match" in render(x) for x in [lit_side])
-        ctx.obligation(ok)
-        if not ok:
-            ctx.violation("glob-dispatch/%s" % op, ctx.where(sem.CONFORMS, body),
-                          "%s must use the glob translation exactly when the literal contains a glob wildcard, and "
-                          "plain equality otherwise" % op)
-    # translators per operator
-    want = {"Rx": [], "NotRx": [], "Like": ["convert_like_to_pattern"], "NotLike": ["convert_like_to_pattern"]}
-    for op, tr in want.items():
-        got = _translator_of(t.get(op)) if t.get(op) else None
-        ok = got == tr
-        ctx.obligation(ok)
-        if not ok:
-            ctx.violation("translator/%s" % op, ctx.where(sem.CONFORMS, t.get(op) or m),
-                          "operator %s compiles its pattern through %s, expected %s" % (op, got, tr or "the raw regex"))
-    # subject and pattern sides
+    """operator -> translator dispatch, subject / pattern sides, exact operators, invalid patterns: conforms evaluated
+    (rules/conf.py) per operator; is_glob tests exactly * and ?"""
+    import conf
+    import interp
+    run = conf.Run(ctx)
     n = 0
-    for op, body in t.items():
-        if op == "_":
-            continue
-        for c in walk_exprs(body):
-            if c["k"] == "MCall" and c["m"] == "is_match":
+    L, R = "abc", "a*"
+    want_tr = {"Eq": "<convert_glob_to_pattern:a*>", "Ne": "<convert_glob_to_pattern:a*>", "Like": "<convert_like_to_pattern:a*>",
+               "NotLike": "<convert_like_to_pattern:a*>", "Rx": "a*", "NotRx": "a*"}
+    for op in ("Eq", "Ne", "Rx", "NotRx", "Like", "NotLike", "Eeq", "Ene"):
+        neg = op in ("Ne", "NotRx", "NotLike", "Ene")
+        try:
+            for matched, L in ((False, "abc"), (True, "abc"), (True, ""), (False, ""), (True, "a-long-column-text")):
+                # (a) pattern path: whatever the column text, the verdict is the regex's
+                got, tr = run.run(op, conf.variant(L), conf.variant(R), matched=matched, is_glob=True)
                 n += 1
-                side = cf.leaf3(c["args"][0])
-                ok = side == "x"
+                if op in ("Eeq", "Ene"):
+                    ok = not tr["compiled"] and not tr["translators"] and not tr["matched_on"] and got == ((L == R) != neg)
+                    why = "must compare the literal text without any pattern; compiled %s, result %s" % (tr["compiled"], got)
+                    key = "exact/%s" % op
+                else:
+                    ok = tr["compiled"] == [want_tr[op]] and got == (matched != neg) and [s_ for _p, s_ in tr["matched_on"]] == [L] and \
+                        [p_ for p_, _s in tr["matched_on"]] == [want_tr[op]]
+                    why = "must compile %s from the literal and match it against the column text; compiled %s, matched %s, result %s for regex verdict %s" % (
+                        want_tr[op], tr["compiled"], tr["matched_on"], got, matched)
+                    key = ("translator/%s" % op) if tr["compiled"] != [want_tr[op]] else ("subject/%s" % op if [s_ for _p, s_ in tr["matched_on"]] != [L] else "result/%s" % op)
                 ctx.obligation(ok)
                 if not ok:
-                    ctx.violation("subject/%s" % op, ctx.where(sem.CONFORMS, c), "the regex of %s is matched against %s, not the column value" % (op, render(c["args"][0])))
-            if c["k"] == "Call" and (str(c.get("callee", "")).startswith("util::glob::convert_") or str(c.get("callee", "")).endswith("Regex::new")):
-                a = cf.locs.chase(c["args"][0])
-                if any(str(y.get("callee", "")).startswith("util::glob::convert_") for y in walk_exprs(a) if y["k"] == "Call"):
-                    continue
+                    ctx.violation(key, ctx.where(sem.CONFORMS), "operator %s %s" % (op, why))
+                    break
+            L = "abc"
+            # (b) = / != without a wildcard: plain text equality, no regex
+            if op in ("Eq", "Ne"):
+                for lt, rt in (("abc", "abc"), ("abc", "abd")):
+                    got, tr = run.run(op, conf.variant(lt), conf.variant(rt), matched=True, is_glob=False)
+                    n += 1
+                    ok = not tr["compiled"] and got == ((lt == rt) != neg)
+                    ctx.obligation(ok)
+                    if not ok:
+                        ctx.violation("glob-dispatch/%s" % op, ctx.where(sem.CONFORMS),
+                                      "%s must use the glob translation exactly when the literal contains a glob wildcard, and plain equality "
+                                      "otherwise: `%s` %s `%s` without a wildcard gives %s (compiled %s)" % (op, lt, op, rt, got, tr["compiled"]))
+                        break
+            # (c) a pattern that does not compile: =~ and like stop with a message, = falls back to text equality
+            if op not in ("Eeq", "Ene"):
+                got, tr = run.run(op, conf.variant(L), conf.variant(R), matched=True, is_glob=True, regex_ok=False)
                 n += 1
-                side = cf.leaf3(a)
-                ok = side == "l"
+                ok = (got == ((L == R) != neg)) if op in ("Eq", "Ne") else got == "exit"
                 ctx.obligation(ok)
                 if not ok:
-                    ctx.violation("pattern/%s" % op, ctx.where(sem.CONFORMS, c), "the pattern of %s is built from %s, not the literal" % (op, render(a)))
-    ctx.covered("subject/pattern operands of regex matches in the text arms", n, distinct_keys=["sites:%d" % n])
+                    ctx.violation("invalid-pattern/%s" % op, ctx.where(sem.CONFORMS),
+                                  "with a pattern that does not compile %s gives %s, expected %s" % (op, got, "text (in)equality" if op in ("Eq", "Ne") else "an error exit"))
+            # (d) a cached regex is used as is
+            if op not in ("Eeq", "Ene"):
+                for matched in (False, True):
+                    got, tr = run.run(op, conf.variant(L), conf.variant(R), matched=matched, is_glob=True, cached={R: {"__regex": "<cached>"}})
+                    n += 1
+                    ok = got == (matched != neg)
+                    ctx.obligation(ok)
+                    if not ok:
+                        ctx.violation("cached/%s" % op, ctx.where(sem.CONFORMS), "with the pattern already cached %s gives %s for regex verdict %s" % (op, got, matched))
+                        break
+        except interp.Undecided as e:
+            ctx.obligation(False)
+            ctx.violation("unreadable/%s" % op, ctx.where(sem.CONFORMS), "cannot evaluate conforms for %s: %s" % (op, e))
+    ctx.covered("text operators evaluated: translator, subject, polarity, wildcard dispatch, invalid pattern, cached pattern", n,
+                distinct_keys=list(want_tr) + ["Eeq", "Ene"], exhaustive=True)
     # is_glob tests exactly * and ?
     ih = ctx.anchor_hir(IS_GLOB)
-    chars = sorted(str(peel(c["args"][0])["v"]) for c in walk_exprs(ih) if c["k"] == "MCall" and c["m"] == "contains"
-                   and peel(c["args"][0])["k"] == "Lit")
-    ok = chars == ["*", "?"] and "||" in render(ih)
-    ctx.obligation(ok)
-    ctx.covered("is_glob wildcard test", 1, distinct_keys=chars)
-    if not ok:
-        ctx.violation("is_glob", ctx.where(IS_GLOB), "is_glob must test for `*` or `?` exactly; it tests %s" % chars)
+    ips = ctx.prog.fns[IS_GLOB]["params"]
+    bad = []
+    for text in ("abc", "a*c", "a?c", "*", "?", "a.c", "a%c", "a_c", "[ab]", "a+", ""):
+        try:
+            g = interp.Interp(prog=ctx.prog).run(ih, {ips[0]["id"]: text})
+        except interp.Undecided as e:
+            bad.append("%r: %s" % (text, e))
+            continue
+        if g != ("*" in text or "?" in text):
+            bad.append("%r -> %s" % (text, g))
+    ctx.obligation(not bad)
+    ctx.covered("is_glob evaluated on 11 texts", 11, distinct_keys=["is_glob"])
+    if bad:
+        ctx.violation("is_glob", ctx.where(IS_GLOB), "is_glob must test for `*` or `?` exactly; %s" % bad[:3])
 
 
 RULES = [
